@@ -52,6 +52,34 @@ def check_pbcd(inp):
   cat = np.concatenate(real) if real else np.zeros(0, np.int64)
   if cat.tolist() != list(range(total)):
     return f'rows lost, duplicated or reordered: {cat.tolist()} vs 0..{total - 1}'
+  # every way of saying the same hyper-parameters gives the same batches: an hparams object, an hparams object with keyword
+  # overrides (falsy / smaller values included), and the federated-data wrapper over the same clients
+  from fedjax.core import federated_data as fdm
+  from fedjax.core import in_memory_federated_data as imfd
+
+  def same(got, what):
+    if len(got) != len(batches):
+      return f'{what}: {len(got)} batches, the keyword form gives {len(batches)}'
+    for g_, w_ in zip(got, batches):
+      if set(g_) != set(w_) or any(not np.array_equal(g_[kk], w_[kk]) for kk in w_):
+        return f'{what}: batches differ from the keyword form (batch sizes {[len(x[M]) for x in got]} vs {[len(x[M]) for x in batches]})'
+  hp_exact = cds.PaddedBatchHParams(batch_size=b, num_batch_size_buckets=k)
+  hp_other = cds.PaddedBatchHParams(batch_size=b + 5, num_batch_size_buckets=k + 1)
+  msg = same(list(cds.padded_batch_client_datasets(iter(dsets), hp_exact)), 'padded_batch_client_datasets(hparams)') or \
+      same(list(cds.padded_batch_client_datasets(iter(dsets), hp_other, batch_size=b, num_batch_size_buckets=k)),
+           'padded_batch_client_datasets(hparams, batch_size=..., num_batch_size_buckets=...)')
+  if msg:
+    return msg
+  if all(len(d_) > 0 for d_ in dsets):
+    fd_ = imfd.InMemoryFederatedData({b'c%03d' % i: dict(d_.raw_examples) for i, d_ in enumerate(dsets)}).preprocess_batch(
+        lambda e: {**e, 'z': e['x'] + 1})
+    msg = same(list(fdm.padded_batch_federated_data(fd_, batch_size=b, num_batch_size_buckets=k)),
+               'padded_batch_federated_data(batch_size=..., num_batch_size_buckets=...)') or \
+        same(list(fdm.padded_batch_federated_data(fd_, hp_exact)), 'padded_batch_federated_data(hparams)') or \
+        same(list(fdm.padded_batch_federated_data(fd_, hp_other, batch_size=b, num_batch_size_buckets=k)),
+             'padded_batch_federated_data(hparams, batch_size=..., num_batch_size_buckets=...)')
+    if msg:
+      return msg
   # rejections
   if len(dsets) >= 2:
     other = cds.ClientDataset(dsets[-1].raw_examples, cds.BatchPreprocessor([lambda e: e]))
